@@ -9,12 +9,22 @@ def facts(rf):
     if not h.ok:
         return {"valid": False, "total": 0, "unit": False, "cok": [], "dataok": False, "detached": False}
     return {"valid": bool(rf.valid), "total": len(rf.content) if rf.content is not None else 0,
+            # (0 = not used: behind the last byte of data there are still entries with stored bytes and no data, which a reader
+            # that stops at the declared length never reaches - only a read past the end looks at them)
+            "declared": 0 if (len(h.entries) > 1 and h.entries[-1]["ulen"] == 0 and h.entries[-1]["clen"] > 0) else min(sum(e["ulen"] for e in h.entries[1:]), 2**31 - 1),
             "unit": h.comp_type == 2, "cok": [bool(c["present"] and c["digest_ok"]) for c in rf.chunks],
             "dataok": bool(rf.data_ok), "detached": bool(h.detached)}
 
 
 def read_sizes(rnd, total, style):
     """a sequence of buffer sizes that certainly reaches past the end of a stream of `total` bytes"""
+    if style in ("exact", "exactblk"):
+        # the reader knows the length (zck_get_data_length) and asks for exactly that much, then closes: no read ever returns 0
+        if total <= 0:
+            return [1]
+        if style == "exact":
+            return [total]
+        return [4096] * (total // 4096) + ([total % 4096] if total % 4096 else [])
     out = []; s = 0; guard = 0
     while s <= total + 2 and guard < 600:
         if style == "one":
